@@ -27,12 +27,14 @@ impl Call {
 
 /// A history built to expose state: repeated expressions with changing placeholders back to back,
 /// error-producing calls between good ones, the same text sent to different evaluators.
-pub fn build_history(rng: &mut Rng, n: usize) -> Vec<Call> {
+pub fn build_history(rng: &mut Rng, n: usize, pool: usize) -> Vec<Call> {
     let mut exprs: Vec<(Ev, String)> = vec![];
     for ev in ALL_EV {
         let leaf = hostile_leaf(ev);
         let cfg = GenCfg::full(ev, &leaf);
-        for _ in 0..40 {
+        // `pool` distinct expressions per evaluator: few (every one repeated often) or many (more than
+        // a capacity-bounded table holds, so entries are evicted and asked for again)
+        for _ in 0..pool {
             let d = 1 + rng.below(4);
             let (_, s) = gen_expr(&cfg, rng, d);
             exprs.push((ev, s.clone()));
@@ -209,7 +211,9 @@ impl Monitor for C16 {
         // every shard runs its own history (different seed stream); cases are reported per observed call
         let n = ctx.tier.pick(3_000usize, 40_000);
         let mut rng = ctx.rng("history", ctx.shard);
-        let hist = build_history(&mut rng, n);
+        let pool = ctx.tier.pick([12usize, 40, 120, 300], [40, 300, 1000, 3000])[ctx.shard as usize % 4];
+        ctx.stats.max("expressions_per_evaluator_in_one_history", pool as f64);
+        let hist = build_history(&mut rng, n, pool);
         let threads = 16usize;
         // phase A: sequential, order pi1
         let mut base: HashMap<String, Outcome> = HashMap::new();
@@ -340,7 +344,7 @@ impl Monitor for C16 {
         pass(true)
     }
     fn rule(&self) -> &'static str {
-        "each of the 16 workers builds its own random history (expressions of all five evaluators incl. malformed ones, the same expression with changing placeholders back to back, failing calls between good ones, evaluations that fail part-way through (in a later argument, a right operand, an inner call) followed by successful ones of the same and of unrelated expressions, the same text sent to every evaluator) and runs it (A) sequentially, recording the outcome of every distinct (evaluator, expression, placeholder) and comparing repeats, (B) in a shuffled order, (C) on 16 threads concurrently, each thread replaying the history from a different rotation with thread::yield_now() injected at every k-th counted step, (D) as the first call of a fresh process for a sample; any call observed with two different outcomes (full comparison including error messages) is a violation; begin/end tickets from one atomic counter show which calls overlapped in time; plus Miri (many seeds) and, in the thorough tier, ThreadSanitizer over a multi-threaded replay; non-trivial = every compared observation; distinct = distinct (evaluator, expression, placeholder, phase)"
+        "each of the 16 workers builds its own random history (12 to 300 distinct expressions per evaluator in the quick tier, 40 to 3000 in the thorough tier, depending on the worker - few, so that each is repeated often, or more than a capacity-bounded table would hold; incl. malformed ones, the same expression with changing placeholders back to back, failing calls between good ones, evaluations that fail part-way through (in a later argument, a right operand, an inner call) followed by successful ones of the same and of unrelated expressions, the same text sent to every evaluator) and runs it (A) sequentially, recording the outcome of every distinct (evaluator, expression, placeholder) and comparing repeats, (B) in a shuffled order, (C) on 16 threads concurrently, each thread replaying the history from a different rotation with thread::yield_now() injected at every k-th counted step, (D) as the first call of a fresh process for a sample; any call observed with two different outcomes (full comparison including error messages) is a violation; begin/end tickets from one atomic counter show which calls overlapped in time; plus Miri (many seeds) and, in the thorough tier, ThreadSanitizer over a multi-threaded replay; non-trivial = every compared observation; distinct = distinct (evaluator, expression, placeholder, phase)"
     }
     fn assumptions(&self) -> Vec<&'static str> {
         vec![
